@@ -157,6 +157,12 @@ def one_base(ctx, shard, i, rng):
                     c.feature("sched:sequential", "via:cli-coarsen")
                     if r.exit_code != 0:
                         raise (r.exception or RuntimeError(r.output[-300:]))
+                elif kind == "sequential" and x == 1:
+                    cooler.coarsen_cooler(base, out, k, chunksize=cs, nproc=1, columns=cols, agg=agg, dtypes={"count": np.int64})
+                    c.feature("sched:sequential", "option:dtypes-override")
+                    with h5py.File(out, "r") as f:
+                        c.check(str(f["pixels/count"].dtype) == "int64", "coarsen-dtypes-override-ignored",
+                                f"dtypes={{'count': int64}} requested but count is stored as {f['pixels/count'].dtype}")
                 elif kind == "sequential":
                     cooler.coarsen_cooler(base, out, k, chunksize=cs, nproc=1, columns=cols, agg=agg)
                     c.feature("sched:sequential")
@@ -191,7 +197,9 @@ def one_base(ctx, shard, i, rng):
                            triucheck=symm, mode="w")
                 probes.collect_worker_events(ctx)
                 check_output(c, out, "/", bt, P, E, k, symm, agg["score"] if agg else None, f"{kind}:{arg}:cs={cs}")
-                dg = h5state.digest_uri(out, skip_cols=(("pixels", "score"),) if two else ())
+                with h5py.File(out, "r") as f:
+                    dg = h5state.content_digest(f["/"], skip_cols=(("pixels", "score"), ("pixels", "count"))) + \
+                        repr(f["pixels/count"][:].tolist())
                 digests[(kind, cs, arg)] = dg
                 if len(set(digests.values())) > 1:
                     c.fail("coarsen-depends-on-chunksize-or-schedule",
